@@ -2,7 +2,7 @@
 // https→http redirects are refused; redirect chains are cut off after a small
 // fixed number of hops.
 //
-// The driver hosts six scripted LFS listeners (A = 127.0.0.1, B = same IP
+// The driver hosts eight scripted LFS listeners (F = an address of 127.77.0.0/16 on the default ports 80/443; A = 127.0.0.1, B = same IP
 // other port, C = 127.0.0.2 on A's port numbers, each as http and https with a
 // CA generated here, plus the name `localhost` as an alias authority of A and
 // B).  Every credential the environment of a case can supply — URL userinfo,
@@ -67,6 +67,10 @@ func copyLogs(dir string, res *caseResult) {
 func (ctx *childCtx) runCase(c tcase) *caseResult {
 	res := &caseResult{Case: c, Class: c.class()}
 	ctx.hub.takeLog()
+	if ctx.hub.fIP == "" && c.usesF() {
+		res.Inconcl = "the default-port origin (an address of 127.77.0.0/16 with :80 and :443) could not be bound"
+		return res
+	}
 	if c.Mode == "proc" {
 		ctx.runProc(c, res)
 	} else {
@@ -146,10 +150,14 @@ func main() {
 	}
 	run := evid.New("C10", "fault_enumeration")
 	defer sbx.RemoveBase()
-	run.Rule = "Redirect graphs (depth 0..4 and endless loops of period 1..3) over origins {A=127.0.0.1:p, same host other port, other host 127.0.0.2 (same port number), other host NAME localhost on the same listener, http->https, https->http} x status {301,302,303,307,308} x Location form {absolute, scheme-relative, path-absolute, query-only, ./segment, segment, empty, missing, 6 malformed strings}, scripted per chain on six in-driver listeners, for requests {batch download/upload, locks list/verify/create, unlock, object verify, storage GET/PUT through the real basic adapters} x access {none, basic preconfigured, basic discovered by 401, multistage helper} x credential sources {URL userinfo in lfs.url / remote url, ~/.netrc, `git credential` helper program, askpass program, ssh git-lfs-authenticate header (fake ssh), injected creds.CredentialHelper, in-memory cache across 1..3 requests of one client, http.<url>.extraheader, batch-issued action Authorization (Basic, other scheme) and ?token=} x 401 scripts (no-credentials challenge at terminal/all nodes; 0..4 rejections of presented credentials) + decoys (foreign remote url / pushurl with userinfo). Families: systematic table role x relation x source (a seed-rotated third in the quick tier), loop table role x cycle pattern, seeded random sessions, and process-level `git lfs fetch|push|locks|locks --verify|lock` with the real binary. Oracle per received request: origin encoded in every Authorization value / ?token == scheme://Host the request was addressed to (netrc: host name only); no hop from an https node to an http node is ever followed and no authenticated request reaches http in a chain begun on https; requests per walk of a chain <= 5 and identical for every endless loop. Class = (mode, request role, access, source, depth, relation of first hop, Location form, 401 policy, rejections) of the case's featured chain."
+	run.Rule = "Redirect graphs (depth 0..4 and endless loops of period 1..3) over origins {A=127.0.0.1:p, same host other port, other host 127.0.0.2 (same port number), other host NAME localhost on the same listener, http->https, https->http} x status {301,302,303,307,308} x Location form {absolute, scheme-relative, path-absolute, query-only, ./segment, segment, empty, missing, 6 malformed strings} x spelling of the Location value {scheme HTTP/Http/hTTp (HTTPS/Https/hTTpS), host name LOCALHOST/LOcAlHoSt, trailing dot, default port written (:80/:443) or left out on a seventh origin F bound to the default ports, user:password@ in the Location, SP/HTAB around the field value (written raw), 5 combinations}, scripted per chain on eight in-driver listeners, for requests {batch download/upload, locks list/verify/create, unlock, object verify, storage GET/PUT through the real basic adapters} x access {none, basic preconfigured, basic discovered by 401, multistage helper} x credential sources {URL userinfo in lfs.url / remote url, ~/.netrc, `git credential` helper program, askpass program, ssh git-lfs-authenticate header (fake ssh), injected creds.CredentialHelper, in-memory cache across 1..3 requests of one client, http.<url>.extraheader, batch-issued action Authorization (Basic, other scheme) and ?token=} x 401 scripts (no-credentials challenge at terminal/all nodes; 0..4 rejections of presented credentials) + decoys (foreign remote url / pushurl with userinfo). Families: systematic table role x relation x source (a seed-rotated third in the quick tier), loop table role x cycle pattern, spelling table spelling x relation (every row in both tiers; quick: one seed-rotated role per row and a quarter of the rows through the binary as well; a fifth of the hops of the seeded families is spelled too), seeded random sessions, and process-level `git lfs fetch|push|locks|locks --verify|lock` with the real binary. Oracle per received request: origin encoded in every Authorization value / ?token == scheme://Host the request was addressed to, both normalised as RFC 3986 and net/url do (scheme and host case-insensitive, no port = default port) (netrc: host name only); no hop from an https node to an http node is ever followed and no authenticated request reaches http in a chain begun on https; requests per walk of a chain <= 5 and identical for every endless loop. Class = (mode, request role, access, source, depth, relation of first hop, Location form~spelling, 401 policy, rejections) of the case's featured chain."
 	run.Assumptions = []string{
 		"netrc credentials are keyed by host name only (the file format has neither scheme nor port): a netrc credential arriving at another port or scheme of the same host name is not flagged",
 		"a credential travelling from http://h:p to https://h:p cannot occur here (distinct ports per scheme); the statement's 'different host or port' is read literally",
+		"all spellings of an authority are one origin: scheme and host are compared case-insensitively, a missing port is the default port of the scheme, userinfo and white space around the Location value are not part of the origin; a single trailing dot of a host name is taken to name the same host (no credential is flagged for crossing between h and h.)",
+		"the name localhost. (trailing dot) does not resolve in this sandbox: a hop spelled that way can only be observed not to be followed (counter location_spelling_trailing-dot_target_reached)",
+		"the upgrade redirect http://h -> https://h with the default port left out on both sides is a change of port (80 -> 443) and judged like any other (the pinned tree kept the Authorization header there: fixed by d81b9e8)",
+		"credentials a Location carries as userinfo name the origin that Location names; Go's transport turns them into an Authorization header for that origin",
 		"http.extraheader without a URL scope is the user's instruction to send the header everywhere and is not generated; only http.<origin>/.extraheader is",
 		"walks of a chain are separated by the arrival of a hop-0 request; after an empty/missing Location the client legitimately re-requests the same URL, which is counted as the same walk",
 		"multistage credentials are exercised through an injected creds.CredentialHelper only (git 2.39.5's `git credential` does not pass authtype/state through)",
